@@ -438,4 +438,21 @@ theorem setup_aliasFree (cfg : Cfg) (S : Nat → Name → Prop) (key : Str) (hcl
           ⟨{ s.env with dirs := aunset s.env.dirs d.name, recs := aunset s.env.recs d.name }, s.aliases, s.unaliased, s.already, s.cache⟩
           s' ha hp h
 
+/-! ### `setup --type t`: the tables resolved for a list of setup types keep their lines' targets -/
+
+theorem within_withTypes (db : Db) (types : List Str) (top : Name) :
+    ∀ k n, Within (db.withTypes types) top k n → Within db top k n := by
+  intro k n hw
+  induction hw with
+  | root => exact Within.root
+  | step _ hd hn hg ih =>
+    simp only [Db.withTypes, List.mem_map] at hd
+    obtain ⟨d0, hd0, rfl⟩ := hd
+    simp only [Decl.withTypes, List.mem_map] at hg
+    obtain ⟨ga, hga, he⟩ := hg
+    obtain ⟨g0, a0⟩ := ga
+    simp only [Prod.mk.injEq] at he
+    obtain ⟨_, rfl⟩ := he
+    exact Within.step ih hd0 hn hga
+
 end EupsModel.Setup
